@@ -216,6 +216,110 @@ fn sut_set(hdr: u8, field: usize, raw: &[u8; 4], value: u32) -> ([u8; 4], u32) {
     }
 }
 
+/// Getter through a view laid over a buffer that is longer than the header
+/// (the views are generic over `AsRef<[u8]>`; e.g. over a received payload).
+fn sut_get_long(hdr: u8, field: usize, buf: &[u8]) -> u32 {
+    match hdr {
+        0 => {
+            let h = MCTPSMBusHeader(buf);
+            (match field {
+                0 => h.dest_read_write(),
+                1 => h.dest_slave_addr(),
+                2 => h.command_code(),
+                3 => h.byte_count(),
+                4 => h.source_read_write(),
+                _ => h.source_slave_addr(),
+            }) as u32
+        }
+        1 => {
+            let h = MCTPTransportHeader(buf);
+            (match field {
+                0 => h.hdr_version(),
+                1 => h.dest_endpoint_id(),
+                2 => h.source_endpoint_id(),
+                3 => h.som(),
+                4 => h.eom(),
+                5 => h.pkt_seq(),
+                6 => h.to(),
+                _ => h.msg_tag(),
+            }) as u32
+        }
+        2 => MCTPMessageBodyHeader(buf).msg_type() as u32,
+        3 => {
+            let h = MCTPControlMessageHeader(buf);
+            (match field {
+                0 => h.rq(),
+                1 => h.d(),
+                2 => h.instance_id(),
+                _ => h.command_code(),
+            }) as u32
+        }
+        4 => {
+            let h = SMBusRoutingInformationUpdateEntry(buf);
+            (match field {
+                0 => h.entry_type(),
+                1 => h.eid_range_size(),
+                2 => h.first_eid(),
+                _ => h.physical_address(),
+            }) as u32
+        }
+        5 => PCIMessageFormat(buf).vendor_id() as u32,
+        _ => IANAMessageFormat(buf).vendor_id(),
+    }
+}
+
+/// Setter through a view over a longer buffer (in place).
+fn sut_set_long(hdr: u8, field: usize, buf: &mut [u8], value: u32) {
+    let v8 = value as u8;
+    match hdr {
+        0 => {
+            let mut h = MCTPSMBusHeader(buf);
+            match field {
+                0 => h.set_dest_read_write(v8),
+                1 => h.set_dest_slave_addr(v8),
+                2 => h.set_command_code(v8),
+                3 => h.set_byte_count(v8),
+                4 => h.set_source_read_write(v8),
+                _ => h.set_source_slave_addr(v8),
+            }
+        }
+        1 => {
+            let mut h = MCTPTransportHeader(buf);
+            match field {
+                0 => h.set_hdr_version(v8),
+                1 => h.set_dest_endpoint_id(v8),
+                2 => h.set_source_endpoint_id(v8),
+                3 => h.set_som(v8),
+                4 => h.set_eom(v8),
+                5 => h.set_pkt_seq(v8),
+                6 => h.set_to(v8),
+                _ => h.set_msg_tag(v8),
+            }
+        }
+        2 => MCTPMessageBodyHeader(buf).set_msg_type(v8),
+        3 => {
+            let mut h = MCTPControlMessageHeader(buf);
+            match field {
+                0 => h.set_rq(v8),
+                1 => h.set_d(v8),
+                2 => h.set_instance_id(v8),
+                _ => h.set_command_code(v8),
+            }
+        }
+        4 => {
+            let mut h = SMBusRoutingInformationUpdateEntry(buf);
+            match field {
+                0 => h.set_entry_type(v8),
+                1 => h.set_eid_range_size(v8),
+                2 => h.set_first_eid(v8),
+                _ => h.set_physical_address(v8),
+            }
+        }
+        5 => PCIMessageFormat(buf).set_vendor_id(value as u16),
+        _ => IANAMessageFormat(buf).set_vendor_id(value),
+    }
+}
+
 /// Value range of the setter's argument type.
 fn value_bits(hdr: u8) -> u32 {
     match hdr {
@@ -229,6 +333,16 @@ fn value_bits(hdr: u8) -> u32 {
 pub enum Case {
     Get { hdr: u8, raw: u32 },
     Set { hdr: u8, field: u8, raw: u32, value: u32 },
+    /// get every field, then set one, through a view over a buffer that holds
+    /// `tail` after the header bytes
+    Long {
+        hdr: u8,
+        field: u8,
+        raw: u32,
+        value: u32,
+        #[serde(with = "crate::calls::hexv")]
+        tail: Vec<u8>,
+    },
     /// MCTPTransportHeader::new_from_buf(raw bytes, version)
     TransportValid { raw: u32, version: u8 },
     /// MCTPMessageBodyHeader::new_from_buf([b])
@@ -304,6 +418,13 @@ impl Prop for C18 {
                 let value = if vb == 32 { value } else { value & ((1u32 << vb) - 1) };
                 Case::Set { hdr, field, raw, value }
             }),
+            2 => (0u8..7, any::<u8>(), any::<u32>(), any::<u32>(), proptest::collection::vec(any::<u8>(), 1..=12)).prop_map(|(hdr, fi, raw, value, tail)| {
+                let nf = fields(hdr).len();
+                let field = ((fi as usize * nf) >> 8) as u8;
+                let vb = value_bits(hdr);
+                let value = if vb == 32 { value } else { value & ((1u32 << vb) - 1) };
+                Case::Long { hdr, field, raw, value, tail }
+            }),
             1 => (any::<u32>(), prop_oneof![Just(1u8), 0u8..16, any::<u8>()]).prop_map(|(raw, version)| Case::TransportValid { raw, version }),
             1 => (any::<bool>(), any::<bool>(), any::<u8>(), any::<u8>()).prop_map(|(rq, d, iid, cmd)| Case::NewControl { rq, d, iid, cmd }),
             1 => (0u8..4, any::<u8>(), any::<u8>(), any::<u8>()).prop_map(|(ty, range, first, phys)| Case::NewRouting { ty, range, first, phys }),
@@ -318,7 +439,7 @@ impl Prop for C18 {
         }
     }
     fn required_labels(&self) -> Vec<&'static str> {
-        vec!["get", "set", "transport_valid_ok", "transport_valid_err", "body_valid_ok", "body_valid_err", "new"]
+        vec!["get", "set", "long_buffer", "transport_valid_ok", "transport_valid_err", "body_valid_ok", "body_valid_err", "new"]
     }
     fn enumerate(&self, tier: Tier, shard: usize, nshards: usize, f: &mut dyn FnMut(Case)) {
         let mut idx = 0usize;
@@ -359,6 +480,20 @@ impl Prop for C18 {
                 for field in 0..fields(hdr).len() {
                     for v in &vals {
                         emit(Case::Set { hdr, field: field as u8, raw: *raw, value: *v });
+                    }
+                }
+            }
+        }
+        // views over longer buffers: every header x field x structured raws x 3 tails
+        for hdr in 0u8..7 {
+            for raw in [0u32, u32::MAX, 0x1122_3344, 0xA5C3_0F96, 0x8000_0001] {
+                for field in 0..fields(hdr).len() {
+                    for tail in [vec![0x55u8], vec![0x66, 0x77, 0x88, 0x99], vec![0xFF; 9]] {
+                        for value in [0u32, 1, 0xFFFF_FFFF, 0x5A5A_5A5A] {
+                            let vb = value_bits(hdr);
+                            let value = if vb == 32 { value } else { value & ((1u32 << vb) - 1) };
+                            emit(Case::Long { hdr, field: field as u8, raw, value, tail: tail.clone() });
+                        }
                     }
                 }
             }
@@ -450,6 +585,41 @@ impl Prop for C18 {
                 let want_rb = (*value as u64 & mask(fd.width)) as u32;
                 if readback != want_rb {
                     r.fail(format!("C18:{}:{}:readback", hn, fd.name), format!("{} header: after set_{}({:#x}) the getter returns {:#x}, want {:#x}", hn, fd.name, value, readback, want_rb));
+                }
+            }
+            Case::Long { hdr, field, raw, value, tail } => {
+                r.label("long_buffer");
+                r.nontrivial = true;
+                let hn = HDR_NAMES[*hdr as usize];
+                let n = HDR_LEN[*hdr as usize];
+                let head = raw_bytes(*hdr, *raw);
+                let mut long: Vec<u8> = head[..n].to_vec();
+                long.extend_from_slice(tail);
+                // reference works on the 4-byte head (unused bytes are the tail's, which must not matter)
+                let mut href = [0u8; 4];
+                href[..n].copy_from_slice(&head[..n]);
+                for (i, fd) in fields(*hdr).iter().enumerate() {
+                    let got = match crate::sut::trap(|| sut_get_long(*hdr, i, &long)) {
+                        Ok(g) => g,
+                        Err(m) => {
+                            r.fail(format!("C18:{}:{}:long_buffer_panic", hn, fd.name), format!("{}() on a view over a {}-byte buffer panicked: {}", fd.name, long.len(), m));
+                            return r;
+                        }
+                    };
+                    let want = ref_get(&href, fd);
+                    if got != want {
+                        r.fail(format!("C18:{}:{}:get_on_longer_buffer", hn, fd.name), format!("{} view over the {}-byte buffer {:02x?}: {}() returns {:#x}, the documented position holds {:#x}", hn, long.len(), long, fd.name, got, want));
+                    }
+                }
+                let fd = &fields(*hdr)[*field as usize];
+                let want = ref_set(&href, fd, *value);
+                let mut after = long.clone();
+                if let Err(m) = crate::sut::trap(|| sut_set_long(*hdr, *field as usize, &mut after, *value)) {
+                    r.fail(format!("C18:{}:{}:long_buffer_panic", hn, fd.name), format!("set_{}() on a view over a {}-byte buffer panicked: {}", fd.name, long.len(), m));
+                    return r;
+                }
+                if after[..n] != want[..n] || after[n..] != tail[..] {
+                    r.fail(format!("C18:{}:{}:set_on_longer_buffer", hn, fd.name), format!("{} view over {:02x?}: set_{}({:#x}) gives {:02x?}, want head {:02x?} and the {} trailing bytes unchanged", hn, long, fd.name, value, after, &want[..n], tail.len()));
                 }
             }
             Case::TransportValid { raw, version } => {
